@@ -375,9 +375,6 @@ func keyFamily(run *ev.Run, n int) {
 			if want := refCheckEnc(payload); ws != want {
 				c.fail("wif:encoding-differs-from-reference", ws+" vs "+want)
 			}
-			if _, err := keys.WIFDecode(ws, effVer^1); err == nil {
-				c.fail("wif:wrong-version-accepted", fmt.Sprintf("encoded with %d decoded with %d", effVer, effVer^1))
-			}
 		}
 		run.Obs("wif_inversions", 2)
 		// verification script, script hash, address
